@@ -782,6 +782,14 @@ class Normalizer:
                 ast.fix_missing_locations(new)
                 return [new]
             return [st]
+        if isinstance(st, ast.For) and st.orelse:
+            low = self._for_else(st, state)
+            if low is not None:
+                self.lowered.append((state["caller"], getattr(st, "lineno", 0), "for-range-else"))
+                out = []
+                for s_ in low:
+                    out += self._stmt(s_, modname, cname, stack, state)
+                return out
         if isinstance(st, (ast.For, ast.AsyncFor)):
             st.body = rec(st.body)
             st.orelse = rec(st.orelse)
@@ -975,6 +983,51 @@ class Normalizer:
                 if isinstance(st, ast.Import) and any(a.name == "contextlib" and (a.asname or a.name) == e.func.value.id for a in st.names):
                     return True
         return False
+
+    # -- N16 -----------------------------------------------------------------------------
+    def _for_else(self, st, state):
+        """for v in range(N): B  else: E   ->   v = 0; while True: if v == N: E; break;  B;  v += 1
+        (N a constant path or plain name evaluated once by range() and not re-bound in B; no `continue` in B; v read nowhere outside the loop)"""
+        it = st.iter
+        if not (isinstance(it, ast.Call) and isinstance(it.func, ast.Name) and it.func.id == "range" and len(it.args) == 1 and not it.keywords
+                and isinstance(st.target, ast.Name) and (_side_effect_free(it.args[0]) or isinstance(it.args[0], ast.Constant))):
+            return None
+        v, n = st.target.id, it.args[0]
+        own = []
+
+        def loop_level(stmts):
+            for x in stmts:
+                if isinstance(x, (ast.For, ast.While, ast.AsyncFor, ast.FunctionDef, ast.AsyncFunctionDef, ast.ClassDef)):
+                    continue
+                if isinstance(x, ast.Continue):
+                    own.append(x)
+                for f in ("body", "orelse", "finalbody"):
+                    loop_level(getattr(x, f, []) or [])
+                for h in getattr(x, "handlers", []) or []:
+                    loop_level(h.body)
+        loop_level(st.body)
+        if own:
+            return None
+        nnames = {x.id for x in ast.walk(n) if isinstance(x, ast.Name)}
+        for x in ast.walk(ast.Module(body=st.body, type_ignores=[])):
+            if isinstance(x, ast.Name) and isinstance(x.ctx, (ast.Store, ast.Del)) and (x.id == v or x.id in nnames):
+                return None
+        root = state.get("root")
+        if root is None:
+            return None
+        inside = {id(x) for x in ast.walk(st)}
+        for x in ast.walk(root):
+            if isinstance(x, ast.Name) and x.id == v and id(x) not in inside:
+                return None
+        init = ast.Assign(targets=[ast.Name(id=v, ctx=ast.Store())], value=ast.Constant(value=0), type_comment=None)
+        test = ast.If(test=ast.Compare(left=ast.Name(id=v, ctx=ast.Load()), ops=[ast.Eq()], comparators=[copy.deepcopy(n)]),
+                      body=list(st.orelse) + ([] if _ends_flow(st.orelse) else [ast.Break()]), orelse=[])
+        inc = ast.AugAssign(target=ast.Name(id=v, ctx=ast.Store()), op=ast.Add(), value=ast.Constant(value=1))
+        loop = ast.While(test=ast.Constant(value=True), body=[test] + list(st.body) + [inc], orelse=[])
+        for o in (init, loop, test, inc):
+            ast.copy_location(o, st)
+            ast.fix_missing_locations(o)
+        return [init, loop]
 
     # -- N13 -----------------------------------------------------------------------------
     def _comp_lowering(self, st, modname, cname, stack, state):
